@@ -54,6 +54,17 @@ static int vp_release_copy(struct parsec_data_copy_s *c);
 static int vp_release_other(void *o);
 #define PARSEC_OBJ_RELEASE(object) do { if (_Generic((object), struct parsec_data_s *: vp_release_data, \
         struct parsec_data_copy_s *: vp_release_copy, default: vp_release_other)(object)) object = NULL; } while (0)
+/* Object creation likewise: PARSEC_OBJ_NEW(parsec_data_copy_t) = pool allocation + the REAL constructors
+ * called directly, parent first (the generic constructor table is read through a symbolic object
+ * pointer after state merges and then has 14 candidates, destructors included). */
+#undef PARSEC_OBJ_NEW
+#define PARSEC_OBJ_NEW(type) ((type *)vp_obj_new_##type())
+static void *vp_obj_new_parsec_data_copy_t(void);
+static void *vp_obj_new_unreachable(void);
+#define vp_obj_new_parsec_data_t vp_obj_new_unreachable
+#define vp_obj_new_parsec_arena_t vp_obj_new_unreachable
+#define vp_obj_new_parsec_arena_datatype_t vp_obj_new_unreachable
+#define vp_obj_new_parsec_gpu_dsl_task_t vp_obj_new_unreachable
 #include "parsec/data.c"
 #include "parsec/mca/device/device_gpu.c"
 #include "parsec/class/parsec_list.c"
@@ -136,6 +147,18 @@ static void vp_free(void *p)
     freed[k] = 1;
 }
 
+static void *vp_obj_new_unreachable(void) { VASSERTM(0, "harness: only data copies are created by reserve_space"); return NULL; }
+static void *vp_obj_new_parsec_data_copy_t(void)
+{
+    parsec_data_copy_t *c = (parsec_data_copy_t *)vp_malloc(sizeof(parsec_data_copy_t));
+    if (c == NULL) return NULL;
+    c->super.super.obj_class = &parsec_data_copy_t_class;
+    c->super.super.obj_reference_count = 1;
+    c->super.super.obj_release = &parsec_obj_destruct_and_free;
+    parsec_list_item_construct(&c->super);
+    parsec_data_copy_construct(c);
+    return c;
+}
 static int data_destroyed_with_copies;
 static int vp_release_copy(struct parsec_data_copy_s *c)
 {
